@@ -72,6 +72,9 @@ type Engine struct {
 	Guards    []GuardInfo
 	GlobalInvs []*GlobalInv
 	Lemmas     map[string]*LemmaInfo
+	Writers    []*WritersInfo
+	restricted map[string]*WritersInfo // heap name -> declaration
+	canReach   map[*WritersInfo]map[*ssa.Function]bool
 	HeapSorts map[string]*smt.Sort
 	HeapGo    map[string]types.Type
 	typeTags  map[string]int
@@ -89,6 +92,14 @@ type Engine struct {
 type AxiomInfo struct {
 	*spec.Axiom
 	Pkg *types.Package
+}
+
+type WritersInfo struct {
+	*spec.WritersSpec
+	Pkg     *types.Package
+	Struct  types.Type
+	Heaps   []string
+	Allowed map[*ssa.Function]bool
 }
 
 type LemmaInfo struct {
@@ -231,6 +242,9 @@ func Load(repo string, patterns []string, extraSpecs []string) (*Engine, error) 
 		for _, gi := range f.GlobalInvs {
 			e.GlobalInvs = append(e.GlobalInvs, &GlobalInv{Clause: gi, Pkg: pkg})
 		}
+		for _, ws := range f.Writers {
+			e.Writers = append(e.Writers, &WritersInfo{WritersSpec: ws, Pkg: pkg})
+		}
 		for _, ld := range f.Lemmas {
 			if e.Lemmas == nil {
 				e.Lemmas = map[string]*LemmaInfo{}
@@ -320,7 +334,108 @@ func Load(repo string, patterns []string, extraSpecs []string) (*Engine, error) 
 			e.Contracts[obj] = c
 		}
 	}
+	if err := e.resolveWriters(); err != nil {
+		return nil, err
+	}
 	return e, nil
+}
+
+// resolveWriters binds `writers` declarations: heap entries of the listed fields become write-restricted.
+func (e *Engine) resolveWriters() error {
+	e.restricted = map[string]*WritersInfo{}
+	e.canReach = map[*WritersInfo]map[*ssa.Function]bool{}
+	for _, w := range e.Writers {
+		st, err := e.lookupNamed(w.Pkg, w.Type)
+		if err != nil {
+			return fmt.Errorf("%s:%d: CONTRACT-STALE writers: %v", w.File, w.Line, err)
+		}
+		u, ok := st.Underlying().(*types.Struct)
+		if !ok {
+			return fmt.Errorf("%s:%d: writers: %s is not a struct", w.File, w.Line, w.Type)
+		}
+		w.Struct = st
+		for i := 0; i < u.NumFields(); i++ {
+			want := len(w.Fields) == 0
+			for _, f := range w.Fields {
+				if f == u.Field(i).Name() {
+					want = true
+				}
+			}
+			if !want || isStruct(u.Field(i).Type()) {
+				continue
+			}
+			h, _, _ := e.fieldHeap(st, i)
+			w.Heaps = append(w.Heaps, h)
+			e.restricted[h] = w
+		}
+		if len(w.Fields) > 0 && len(w.Heaps) != len(w.Fields) {
+			return fmt.Errorf("%s:%d: CONTRACT-STALE writers: some of the fields %v not found in %s", w.File, w.Line, w.Fields, w.Type)
+		}
+		w.Allowed = map[*ssa.Function]bool{}
+		for _, name := range w.Only {
+			obj, err := e.resolveFunc(w.Pkg, name)
+			if err != nil {
+				return fmt.Errorf("%s:%d: CONTRACT-STALE writers: %v", w.File, w.Line, err)
+			}
+			if f := e.Prog.FuncValue(obj); f != nil {
+				w.Allowed[f] = true
+			}
+		}
+		// functions that can reach an allowed writer through static calls (closures included)
+		reach := map[*ssa.Function]bool{}
+		for f := range w.Allowed {
+			reach[f] = true
+		}
+		var fns []*ssa.Function
+		for _, sp := range e.SSAPkgs {
+			if e.inModule(sp.Pkg) {
+				fns = append(fns, allFunctions(sp)...)
+			}
+		}
+		for changed := true; changed; {
+			changed = false
+			for _, f := range fns {
+				if reach[f] {
+					continue
+				}
+				for _, b := range f.Blocks {
+					for _, in := range b.Instrs {
+						var callee *ssa.Function
+						switch in := in.(type) {
+						case *ssa.Call:
+							callee = staticFn(&in.Call)
+						case *ssa.Defer:
+							callee = staticFn(&in.Call)
+						case *ssa.Go:
+							callee = staticFn(&in.Call)
+						case *ssa.MakeClosure:
+							callee, _ = in.Fn.(*ssa.Function)
+						}
+						if callee != nil && reach[callee] {
+							reach[f] = true
+							changed = true
+						}
+					}
+				}
+			}
+		}
+		e.canReach[w] = reach
+	}
+	return nil
+}
+
+// preservedAcross lists the write-restricted heap entries a call to fn cannot change.
+func (e *Engine) preservedAcross(fn *ssa.Function) map[string]bool {
+	out := map[string]bool{}
+	for _, w := range e.Writers {
+		if fn != nil && e.canReach[w][fn] {
+			continue
+		}
+		for _, h := range w.Heaps {
+			out[h] = true
+		}
+	}
+	return out
 }
 
 func mentionsCall(x spec.Expr, name string) bool {
